@@ -242,7 +242,7 @@ def run_imputer_plan(plan):
 class C06Check(Check):
     prop = "C06"
     design_ref = "DESIGN.md section 4, C06"
-    runs = {"quick": 3000, "thorough": 300000}
+    runs = {"quick": 3000, "thorough": 1500000}
     rule = ("plans = (feature names of every type, storage kind/capacity, imputer kind, subset shape and container type, "
             "n_samples, store operations interleaved with impute calls, RNG mode incl. first/last-row adversary tape); "
             "non-trivial = at least one impute call judged; distinct = digest of (subsets, model inputs, predictions)")
